@@ -10,7 +10,7 @@ open Hl7 Hl7.Py Hl7.G Hl7.Datatypes
 
 /-! ## header -/
 
-/-- `_split_msh` (parser.py:636-673); the unchecked `fields[11]` is explicit -/
+/-- `_split_msh` (parser.py:636-673) -/
 def splitMsh (content : Str) : R (List Str × EC) :=
   match content with
   | 'M' :: 'S' :: 'H' :: fs :: _ =>
@@ -23,7 +23,7 @@ def splitMsh (content : Str) : R (List Str × EC) :=
     | [c, r, e, s] => .ok (fields, ⟨fs, c, s, r, e, none⟩)
     | [c, r, e, s, t] =>
       match fields[11]? with
-      | none => .error .CrashIndexError
+      | none => .error .InvalidEncodingChars          -- `len(fields) > 11 and …` (fix of finding D11a)
       | some v =>
         if strGe v "2.7".toList then .ok (fields, ⟨fs, c, s, r, e, some t⟩) else .error .InvalidEncodingChars
     | _ => .error .InvalidEncodingChars
@@ -317,7 +317,8 @@ def parseMessage (tables : List Tables) (dflt : Defaults) (text : Str) (strict :
   match known with
   | some (n, rows) =>
     structCheck rows
-    let kids ← parseSegments T dflt text ec strict (some rows) findGroups
+    -- a Z message has no structure: its segments are parsed flat (fix of finding D4z)
+    let kids ← parseSegments T dflt text ec strict (some rows) (findGroups && !isZMsg n.toList)
     let kids ← kids.foldlM (fun (acc : List Node) k => do
       admit T strict true (some n) (some rows) acc k
       pure (acc ++ [k])) []
